@@ -1,6 +1,6 @@
 """LST rules: sibling-list shape maintenance (DESIGN.md section 3)."""
 from ..facts import (AnalysisBroken, walk, strip_casts, expr_str, is_null_const, const_val, ASSIGN_OPS, callee_name)
-from .common import assignments, is_ref, is_mem, all_functions, guarded_by, node_containing
+from .common import assignments, is_ref, is_mem, all_functions, guarded_by, node_containing, cmp_parts
 
 REF_MACRO = 'cJSON_IsReference'
 
@@ -27,6 +27,66 @@ def _field_stores(fn, field):
         if l.get('k') == 'mem' and l['f'] == field:
             out.append((a, l))
     return out
+
+
+_fr_cache = {}
+
+
+def _failure_released(u, fn, seen=()):
+    """fn is a static helper that reports failure by a zero / NULL result, and every caller that sees that result releases what
+    was being built (cJSON_Delete on the failure edge before it can return success) or fails in the same way itself: a list
+    left half-linked on such a return is never walked."""
+    key = (id(u), fn.name)
+    if key in _fr_cache:
+        return _fr_cache[key]
+    if not fn.static or fn.name in seen:
+        return False
+    sites = [(g, c) for g in u.function_list if g.body is not None for c in g.calls() if callee_name(c) == fn.name]
+    ok = bool(sites)
+    for (g, c) in sites:
+        cfg = g.cfg()
+        node = cfg.node_of_expr(c['id'])
+        if node is None or node.kind != 'branch':
+            ok = False
+            break
+        e = strip_casts(node.expr)
+        neg = False
+        while e.get('k') == 'un' and e['op'] == '!':
+            e = strip_casts(e['e'])
+            neg = not neg
+        if e is not c and strip_casts(e) is not c:
+            pc = cmp_parts(node.expr)
+            if pc is None or strip_casts(pc[0]) is not c or pc[2] != 0 or pc[1] not in ('==', '!='):
+                ok = False
+                break
+            fail_label = 'T' if pc[1] == '==' else 'F'
+        else:
+            # the CFG branches on the call value itself (negations are folded into the labels)
+            fail_label = 'F'
+        starts = [y for (y, l) in cfg.succ[node.id] if l is not None and l[0] == fail_label]
+        # from the failure edge, every return reached is a failing one or comes after a cJSON_Delete
+        dels = {m.id for m in cfg.nodes if m.expr is not None and any(
+            x.get('k') == 'call' and callee_name(x) == 'cJSON_Delete' for x in walk(m.expr))}
+        work = list(starts)
+        seen_n = set(work)
+        while work and ok:
+            x = work.pop()
+            if x in dels:
+                continue
+            nx = cfg.nodes[x]
+            if nx.kind == 'return':
+                failing = nx.expr is not None and (is_null_const(nx.expr) or const_val(nx.expr) == 0)
+                if not (failing and (g.name == fn.name or _failure_released(u, g, seen + (fn.name,)))):
+                    ok = False
+                continue
+            for (y, _l) in cfg.succ[x]:
+                if y not in seen_n:
+                    seen_n.add(y)
+                    work.append(y)
+        if not ok:
+            break
+    _fr_cache[key] = ok
+    return ok
 
 
 def _tail_verified(e, truth):
@@ -157,6 +217,11 @@ def lst1(units, R):
                     if c.get('k') == 'call' and callee_name(c) == 'cJSON_Delete' and c['args'] and \
                             expr_str(strip_casts(c['args'][0])) == X:
                         P.add(nd.id)
+            # a helper's failing return hands the half-built container back to a caller that releases it
+            if _failure_released(u, fn):
+                for rn in cfg.returns():
+                    if rn.expr is not None and (is_null_const(rn.expr) or const_val(rn.expr) == 0):
+                        P.add(rn.id)
             names = {Vs, xchild, X}
             # forward, locals known to be non-NULL are tracked along the path: the new child itself (paths on which it
             # is NULL are exempt), copies of it, and locals tested on the way (`p = n; ... if (p != NULL)`)
